@@ -14,3 +14,24 @@ Theorem C07_typed_purl : forall s t p, parse cfg P s = Ok (t, p) ->
    /\ p_sub p = join c_slash (map pdecode (raw_sub_pieces r)) /\ Forall good_sub_seg (map pdecode (raw_sub_pieces r)).
 Proof. intros s t p. exact (C07 cfg P s t p (P_keeps cfg)). Qed.
 Print Assumptions C07_typed_purl.
+(* the joined-path reading (theories/Climb.v): resolving the reported subpath from any directory stack d pushes exactly the
+   reported segments and never pops, so d is never left; None would be a climb out of the base *)
+From PM Require Import Climb.
+Theorem C07_no_climb_generic : forall s t p, parse cfg G s = Ok (t, p) ->
+  exists segs, Forall good_sub_seg segs /\ p_sub p = join c_slash segs /\ pops segs = 0
+    /\ forall d, walk d (split c_slash (p_sub p)) = Some (rev segs ++ d).
+Proof. intros s t p. exact (C07_no_climb cfg G s t p (G_keeps cfg)). Qed.
+Print Assumptions C07_no_climb_generic.
+Theorem C07_no_climb_typed : forall s t p, parse cfg P s = Ok (t, p) ->
+  exists segs, Forall good_sub_seg segs /\ p_sub p = join c_slash segs /\ pops segs = 0
+    /\ forall d, walk d (split c_slash (p_sub p)) = Some (rev segs ++ d).
+Proof. intros s t p. exact (C07_no_climb cfg P s t p (P_keeps cfg)). Qed.
+Print Assumptions C07_no_climb_typed.
+Theorem C07_ns_split_generic : forall s t p, parse cfg G s = Ok (t, p) -> p_ns p <> [] ->
+  exists segs, segs <> [] /\ Forall good_ns_seg segs /\ split c_slash (p_ns p) = segs.
+Proof. intros s t p. exact (C07_ns_split cfg G s t p (G_keeps cfg)). Qed.
+Print Assumptions C07_ns_split_generic.
+Theorem C07_ns_split_typed : forall s t p, parse cfg P s = Ok (t, p) -> p_ns p <> [] ->
+  exists segs, segs <> [] /\ Forall good_ns_seg segs /\ split c_slash (p_ns p) = segs.
+Proof. intros s t p. exact (C07_ns_split cfg P s t p (P_keeps cfg)). Qed.
+Print Assumptions C07_ns_split_typed.
